@@ -151,4 +151,35 @@ def kmerge {α} (le : α → α → Bool) (runs : List (List α)) : List α :=
 def sortSpill (nullsMax : Bool) (dirs : List Bool) (chunks : List (List Row)) : List Row :=
   kmerge (fun a b => !(lessSlow nullsMax dirs b a)) (chunks.map (sortRows nullsMax dirs))
 
+/-! ### `sort.Op` (runtime/sam/op/sort/sort.go) -/
+
+/-- `setComparator`: `-r` flips every key's order; nulls are max unless `nullsFirst`, flipped
+    again when the (possibly reversed) first key is descending. -/
+def sortConfig (nullsFirst reverse : Bool) (dirs : List Bool) : Bool × List Bool :=
+  let dirs := if reverse then dirs.map (!·) else dirs
+  let nm := !nullsFirst
+  match dirs with
+  | true :: _ => (!nm, dirs)
+  | _ => (nm, dirs)
+
+/-- `Op.run` up to end of input: batches are appended to `out`; after a batch the buffered
+    byte count is compared with the limit and `out` is spilled as a run when it is reached.
+    Returns the spilled runs (in order) and the rows still buffered. -/
+def formRuns (limit : Nat) : List (List (Row × Nat)) → List Row → Nat → List (List Row) → List (List Row) × List Row
+  | [], out, _, runs => (runs, out)
+  | b :: rest, out, nbytes, runs =>
+    let out := out ++ b.map (·.1)
+    let nbytes := nbytes + (b.map (·.2)).sum
+    if nbytes < limit then formRuns limit rest out nbytes runs
+    else formRuns limit rest [] 0 (runs ++ [out])
+
+/-- the whole operator on one input stream -/
+def sortOp (nullsFirst reverse : Bool) (dirs : List Bool) (limit : Nat) (batches : List (List (Row × Nat))) : List Row :=
+  let (nm, dirs) := sortConfig nullsFirst reverse dirs
+  match formRuns limit batches [] 0 [] with
+  | ([], out) => sortRows nm dirs out
+  | (runs, out) =>
+    let runs := if out.isEmpty then runs else runs ++ [out]
+    sortSpill nm dirs runs
+
 end Zed
